@@ -9,46 +9,6 @@ theorem Img.ext' (a b : Img) (hp : ∀ q, a.pages q = b.pages q) (hs : ∀ k, a.
 
 /-! ### applying a pending list over an image that already contains part of it -/
 
-theorem applyOp_slots_congr (d m : Img) (op : TOp) (k : Nat) (h : d.slots k = m.slots k ∨ isHdrOn op k) :
-    (applyOp d op).slots k = (applyOp m op).slots k := by
-  cases op with
-  | hdr s t st =>
-    simp only [applyOp]
-    by_cases e : k = s
-    · simp [e]
-    · simp only [e, if_false]; rcases h with h | h
-      · exact h
-      · simp only [isHdrOn] at h; omega
-  | write _ _ => rcases h with h | h
-                 · exact h
-                 · simp [isHdrOn] at h
-  | trunc _ => rcases h with h | h
-               · exact h
-               · simp [isHdrOn] at h
-  | sync => rcases h with h | h
-            · exact h
-            · simp [isHdrOn] at h
-
-theorem foldl_slots_congr (ops : List TOp) (k : Nat) : ∀ (d m : Img),
-    (d.slots k = m.slots k ∨ ∃ op ∈ ops, isHdrOn op k) →
-    (ops.foldl applyOp d).slots k = (ops.foldl applyOp m).slots k := by
-  induction ops with
-  | nil =>
-    intro d m h
-    rcases h with h | ⟨_, ho, _⟩
-    · exact h
-    · simp at ho
-  | cons op ops ih =>
-    intro d m h
-    simp only [List.foldl_cons]
-    by_cases ht : isHdrOn op k
-    · exact ih _ _ (Or.inl (applyOp_slots_congr d m op k (Or.inr ht)))
-    · rcases h with h | ⟨o, ho, hto⟩
-      · exact ih _ _ (Or.inl (applyOp_slots_congr d m op k (Or.inl h)))
-      · rcases List.mem_cons.mp ho with rfl | ho
-        · exact absurd hto ht
-        · exact ih _ _ (Or.inr ⟨o, ho, hto⟩)
-
 /-- the real image `d` differs from the known image `m` only where a pending operation writes -/
 structure Near (d m : Img) (ops : List TOp) : Prop where
   pages : ∀ q, (∀ op ∈ ops, ¬ touches op q) → d.pages q = m.pages q
@@ -119,13 +79,16 @@ structure OSafe (reachOf : Nat → List (Nat × Hash)) (c : OCfg) (d : Img) : Pr
     ClearOf (reachOf c.base.aSt) op ∨
     ∃ t s, op = .hdr (1 - c.base.aSlot) t s ∧ c.base.durable.slots (1 - c.base.aSlot) = some (t, s)
   inflP : c.phase = .normal → ∀ st, c.base.inflight = some st →
-    c.base.pending = [.hdr (1 - c.base.aSlot) (c.base.aTx + 1) st]
+    ∃ old, c.base.pending = old ++ [.hdr (1 - c.base.aSlot) (c.base.aTx + 1) st] ∧
+      ∀ op ∈ old, ClearOf (reachOf c.base.aSt) op ∧ ClearOf (reachOf st) op
   failedP : ∀ st' prev, c.phase = .failed st' prev →
-    (∀ op ∈ c.base.pending, op = .hdr (1 - c.base.aSlot) (c.base.aTx + 1) st') ∧
+    (∀ op ∈ c.base.pending, op = .hdr (1 - c.base.aSlot) (c.base.aTx + 1) st' ∨
+      (ClearOf (reachOf c.base.aSt) op ∧ ClearOf (reachOf st') op)) ∧
     ∀ t s, prev = some (t, s) → t < c.base.aTx
   restP : ∀ st' tp sp, c.phase = .restoring st' (tp, sp) → tp < c.base.aTx ∧
     ∃ l, c.base.pending = l ++ [.hdr (1 - c.base.aSlot) tp sp] ∧
-      ∀ op ∈ l, op = .hdr (1 - c.base.aSlot) (c.base.aTx + 1) st'
+      ∀ op ∈ l, op = .hdr (1 - c.base.aSlot) (c.base.aTx + 1) st' ∨
+        (ClearOf (reachOf c.base.aSt) op ∧ ClearOf (reachOf st') op)
 
 theorem oghost_pendingSt (c : OCfg) (s : Nat) (h : c.ghost = some s) : c.pendingSt = some s := by
   rcases c with ⟨b, ph⟩
@@ -146,21 +109,30 @@ theorem OSafe.pok {reachOf : Nat → List (Nat × Hash)} {c : OCfg} {d : Img} (h
     | none =>
       intro op hop
       rcases hs.quiet rfl hi op hop with hcl | ⟨t, s, rfl, hm⟩
-      · exact Or.inl ⟨by simp [OCfg.pendingSt, hi], hcl⟩
+      · exact Or.inl ⟨hcl, by intro s e; simp [OCfg.pendingSt, hi] at e⟩
       · exact Or.inr ⟨_, _, rfl, Or.inl (hs.mprev rfl t s hm)⟩
     | some st =>
-      have hp := hs.inflP rfl st hi
+      obtain ⟨old, hp, hold⟩ := hs.inflP rfl st hi
       intro op hop
-      simp only at hp
+      simp only at hp hold
       rw [hp] at hop
-      simp only [List.mem_singleton] at hop
-      subst hop
-      exact Or.inr ⟨_, _, rfl, Or.inr ⟨rfl, by simp [OCfg.pendingSt, hi]⟩⟩
+      rcases List.mem_append.mp hop with hop | hop
+      · refine Or.inl ⟨(hold op hop).1, ?_⟩
+        intro s e
+        simp only [OCfg.pendingSt, hi, Option.some.injEq] at e
+        subst e; exact (hold op hop).2
+      · simp only [List.mem_singleton] at hop
+        subst hop
+        exact Or.inr ⟨_, _, rfl, Or.inr ⟨rfl, by simp [OCfg.pendingSt, hi]⟩⟩
   | failed st' prev =>
     intro op hop
-    have := (hs.failedP st' prev rfl).1 op hop
-    subst this
-    exact Or.inr ⟨_, _, rfl, Or.inr ⟨rfl, rfl⟩⟩
+    rcases (hs.failedP st' prev rfl).1 op hop with this | ⟨c1, c2⟩
+    · subst this
+      exact Or.inr ⟨_, _, rfl, Or.inr ⟨rfl, rfl⟩⟩
+    · refine Or.inl ⟨c1, ?_⟩
+      intro s e
+      simp only [OCfg.pendingSt, Option.some.injEq] at e
+      subst e; exact c2
   | restoring st' prev =>
     obtain ⟨tp, sp⟩ := prev
     obtain ⟨hlt, l, hp, hl⟩ := hs.restP st' tp sp rfl
@@ -168,9 +140,13 @@ theorem OSafe.pok {reachOf : Nat → List (Nat × Hash)} {c : OCfg} {d : Img} (h
     simp only at hp
     rw [hp] at hop
     rcases List.mem_append.mp hop with hop | hop
-    · have := hl op hop
-      subst this
-      exact Or.inr ⟨_, _, rfl, Or.inr ⟨rfl, rfl⟩⟩
+    · rcases hl op hop with this | ⟨c1, c2⟩
+      · subst this
+        exact Or.inr ⟨_, _, rfl, Or.inr ⟨rfl, rfl⟩⟩
+      · refine Or.inl ⟨c1, ?_⟩
+        intro s e
+        simp only [OCfg.pendingSt, Option.some.injEq] at e
+        subst e; exact c2
     · simp only [List.mem_singleton] at hop
       subst hop
       exact Or.inr ⟨_, _, rfl, Or.inl hlt⟩
@@ -294,22 +270,23 @@ theorem osafe_step (reachOf : Nat → List (Nat × Hash)) (c c' : OCfg) (d d' : 
           split at hb
           · rename_i hc
             simp only [Option.some.injEq] at hb; subst hb
-            simp only [Bool.and_eq_true, Option.isNone_iff_eq_none, List.isEmpty_iff, beq_iff_eq] at hc
-            obtain ⟨⟨⟨⟨hi, hpe⟩, rfl⟩, rfl⟩, hint⟩ := hc
+            simp only [Bool.and_eq_true, Option.isNone_iff_eq_none, List.all_eq_true, beq_iff_eq] at hc
+            obtain ⟨⟨⟨⟨hi, hall⟩, rfl⟩, rfl⟩, hint⟩ := hc
+            have hclr : ∀ o ∈ b.pending, ClearOf (reachOf st) o := fun o ho => pendClearB_spec _ o (hall o ho)
             have hnp := hs.near.pages
-            have hns := hs.near.slots
-            simp only at hnp hns
-            rw [hpe] at hnp hns
-            refine ⟨hs.slotLe, hs.img, ?_, ⟨?_, ?_⟩, hs.mprev, ?_, ?_, nofun, nofun⟩
+            simp only at hnp
+            refine ⟨hs.slotLe, hs.img, ?_, near_append hs.near _, hs.mprev, ?_, ?_, nofun, nofun⟩
             · intro st'' hst p hh hm
               simp only [OCfg.pendingSt, Option.some.injEq] at hst; subst hst
-              rw [hnp p (by intro o ho; cases ho)]
+              rw [hnp p (fun o ho => clearOf_not_touches _ o (hclr o ho) p hh hm)]
               exact intactB_spec reachOf _ _ hint p hh hm
-            · intro q _; exact hnp q (by intro o ho; cases ho)
-            · intro k _; exact hns k (by intro o ho; cases ho)
             · intro _ hn; cases hn
             · intro _ st'' hst
-              simp only [Option.some.injEq] at hst; subst hst; rfl
+              simp only [Option.some.injEq] at hst; subst hst
+              refine ⟨b.pending, rfl, fun o ho => ⟨?_, hclr o ho⟩⟩
+              rcases hs.quiet rfl hi o ho with hcl | ⟨t', s', rfl, _⟩
+              · exact hcl
+              · have := hclr _ ho; simp [ClearOf] at this
           · cases hb
       | failed st' prev =>
         simp only [OCfg.step] at h
@@ -343,25 +320,18 @@ theorem osafe_step (reachOf : Nat → List (Nat × Hash)) (c c' : OCfg) (d d' : 
           · intro _ st hst; cases hst
         | some st =>
           simp only [hi, Option.map_some, Option.some.injEq] at h; subst h
-          have hp : b.pending = _ := hs.inflP rfl st hi
+          obtain ⟨old, hp, _⟩ := hs.inflP rfl st hi
+          simp only at hp
+          simp only [OCfg.pendingSt, hi] at hok
           have hsl : 1 - (1 - b.aSlot) = b.aSlot := by have := hs.slotLe; simp only at this; omega
-          have hne : ¬ (b.aSlot = 1 - b.aSlot) := by omega
-          have hact : d.slots b.aSlot = some (b.aTx, b.aSt) := hs.img.active
-          have hint := hs.intactP st (by simp [OCfg.pendingSt, hi])
-          have hf : ∀ x : Img, b.pending.foldl applyOp x = applyOp x (.hdr (1 - b.aSlot) (b.aTx + 1) st) := by
-            intro x; rw [hp]; rfl
+          have hact : (b.pending.foldl applyOp d).slots b.aSlot = some (b.aTx, b.aSt) := hok.active
+          have hslot : (b.pending.foldl applyOp d).slots (1 - b.aSlot) = some (b.aTx + 1, st) := by
+            rw [hp, List.foldl_append]; simp [applyOp]
           have hoth : ∀ t s, (b.pending.foldl applyOp d).slots (1 - (1 - b.aSlot)) = some (t, s) → t < b.aTx + 1 := by
-            intro t s
-            rw [hf, hsl]
-            simp only [applyOp, hne, if_false, hact, Option.some.injEq, Prod.mk.injEq]
-            intro ⟨e, _⟩; omega
-          refine ⟨by show 1 - b.aSlot ≤ 1; omega, ⟨?_, ?_, ?_, nofun⟩, ?_, ?_, ?_, ?_, ?_, nofun, nofun⟩
-          · show (b.pending.foldl applyOp d).slots (1 - b.aSlot) = _
-            rw [hf]; simp [applyOp]
+            intro t s e
+            rw [hsl, hact] at e; cases e; omega
+          refine ⟨by show 1 - b.aSlot ≤ 1; omega, ⟨hslot, ?_, hok.intactG st rfl, nofun⟩, ?_, ?_, ?_, ?_, ?_, nofun, nofun⟩
           · intro t s e; exact Or.inl (hoth t s e)
-          · intro p hh hm
-            show (b.pending.foldl applyOp d).pages p = _
-            rw [hf]; exact hint p hh hm
           · intro st' hst; simp [OCfg.pendingSt] at hst
           · show Near (b.pending.foldl applyOp d) (b.pending.foldl applyOp b.durable) []
             rw [hexact]; exact near_refl _ _
@@ -419,7 +389,8 @@ theorem osafe_step (reachOf : Nat → List (Nat × Hash)) (c c' : OCfg) (d d' : 
         intro st hst; simp [OCfg.pendingSt, hi] at hst
       | some st =>
         simp only [hi, Option.some.injEq] at h; subst h
-        have hp : b.pending = _ := hs.inflP rfl st hi
+        obtain ⟨old, hp, hold⟩ := hs.inflP rfl st hi
+        simp only at hp hold
         simp only [OCfg.pendingSt, hi] at hok
         refine ⟨hs.slotLe, hok, ?_, hnear, nofun, nofun, nofun, ?_, nofun⟩
         · intro st'' hst; simp only [OCfg.pendingSt, Option.some.injEq] at hst; subst hst; exact hok.intactG _ rfl
@@ -427,10 +398,12 @@ theorem osafe_step (reachOf : Nat → List (Nat × Hash)) (c c' : OCfg) (d d' : 
           cases hph
           refine ⟨?_, hs.mprev rfl⟩
           intro o ho
-          show o = .hdr (1 - b.aSlot) (b.aTx + 1) st
+          show o = .hdr (1 - b.aSlot) (b.aTx + 1) st ∨ (ClearOf (reachOf b.aSt) o ∧ ClearOf (reachOf st) o)
           have ho' : o ∈ b.pending := ho
           rw [hp] at ho'
-          simpa using ho'
+          rcases List.mem_append.mp ho' with ho' | ho'
+          · exact Or.inr (hold o ho')
+          · exact Or.inl (by simpa using ho')
     | failed st' prev =>
       simp only [OCfg.step, Option.some.injEq] at h; subst h
       simp only [OCfg.pendingSt] at hok
@@ -541,7 +514,10 @@ theorem safe_of_osafe (reachOf : Nat → List (Nat × Hash)) (c : OCfg) (d : Img
   have hi : b.inflight = none := by
     cases hi : b.inflight with
     | none => rfl
-    | some st => have := hs.inflP rfl st hi; simp only at this; rw [hp] at this; cases this
+    | some st =>
+      obtain ⟨old, this, _⟩ := hs.inflP rfl st hi
+      simp only at this; rw [hp] at this
+      cases old <;> cases this
   refine ⟨rfl, hs.slotLe, hs.img.active, ?_, hs.img.intact, ?_, ?_⟩
   · intro t s e
     rcases hs.img.other t s e with h | ⟨_, h⟩
